@@ -87,6 +87,12 @@ def materialize(world, scratch, vcf_name="in.vcf", phased_truth=False, tag="PS")
                             calls.append({"GT": f"{g[0]}|{g[1]}", "PS": str(first_pos[key])})
                         else:
                             calls.append({"GT": "0/1", "HP": f"{first_pos[key]}-{g[0] + 1},{first_pos[key]}-{g[1] + 1}"})
+            for si_, s in enumerate(samples):
+                # "vcf_gt_override": {sample: {chrom: {variant index: GT text}}}: the VCF claims a genotype the reads contradict
+                g_ = world.get("vcf_gt_override", {}).get(s, {}).get(c["name"], {})
+                g_ = g_.get(vi, g_.get(str(vi)))
+                if g_:
+                    calls[si_] = {"GT": g_}
             vcf.add(c["name"], v.pos, v.ref, v.alts, calls, fmt=fmts)
     vcf_path = vcf.write(os.path.join(scratch, vcf_name))
     # reads
